@@ -8,7 +8,7 @@ Which fields of the implementation's answer the model reproduces, and which it o
 measurements: parse flags of the external TypeScript oracle, exit classes, counts), is said per op below.
 The verdict is always computed from the implementation's answer.
 
-  ovl / ovlnc       (C24)  reproduces: `ok` + the ordered overload patterns of iso.ts
+  ovl / ovlnc / ovlws (C24) reproduces: `ok` + the members of WhitespaceCharacter + the ordered overload patterns of iso.ts
   hole              (C13)  reproduces: `outside` | `ok` + the embedded text(s); echoes the swc parse flags
   artsp             (C13)  echoes everything (the answer is the external parser's verdict on every artifact)
   artsi             (C13)  reproduces: `ok` + the resolved target of every relative import; echoes the lists
@@ -18,6 +18,7 @@ The verdict is always computed from the implementation's answer.
 -/
 import IsoVerif.Model.Util
 import IsoVerif.Model.IsoOverload
+import IsoVerif.Gen.IsoOverloadLits
 import IsoVerif.Model.TsLex
 import IsoVerif.Model.Core.Wire
 import IsoVerif.Model.Core.Imports
@@ -51,12 +52,32 @@ def declOf (d : Core.Decl) : IsoOverload.Decl :=
   ⟨match d with | .clientField _ => .field | .clientPointer _ => .pointer | .entrypoint _ => .entrypoint,
    strBytes d.parent, strBytes d.name⟩
 
-/-- TypeScript overload resolution over the IMPLEMENTATION's pattern list -/
-def firstPat : List Bytes → Bytes → Option Bytes
-  | [], _ => none
-  | p :: ps, lit => if accepts p lit then some p else firstPat ps lit
+/-- `Whitespace<In>` with the member set read back from the IMPLEMENTATION's iso.ts -/
+def stripWith (ws : List Bytes) : Nat → Bytes → Bytes
+  | 0, lit => lit
+  | fuel + 1, lit =>
+    match ws.find? (fun m => !m.isEmpty && startsWith lit m) with
+    | some m => stripWith ws fuel (lit.drop m.length)
+    | none => lit
 
-def leads : List Bytes := [[], [10, 32, 32], [32, 9], [10, 10, 9]]
+def acceptsWith (ws : List Bytes) (pat lit : Bytes) : Bool := startsWith (stripWith ws (lit.length + 1) lit) pat
+
+/-- TypeScript overload resolution over the IMPLEMENTATION's pattern list -/
+def firstPat (ws : List Bytes) : List Bytes → Bytes → Option Bytes
+  | [], _ => none
+  | p :: ps, lit => if acceptsWith ws p lit then some p else firstPat ws ps lit
+
+/-- the value of a template literal: CR LF and CR become LF (ECMAScript TV) -/
+def cook : Bytes → Bytes
+  | [] => []
+  | 13 :: 10 :: rest => 10 :: cook rest
+  | 13 :: rest => 10 :: cook rest
+  | b :: rest => b :: cook rest
+
+/-- leading white space that `parse_iso_literal` accepts before the keyword and that the generated file must
+strip: space, tab, LF, and CR / CR LF as they reach the type (cooked) -/
+def leads : List Bytes :=
+  [[], [10, 32, 32], [32, 9], [10, 10, 9], [9], [9, 9], [10, 9, 9], [13, 10, 9], [13], [32, 13, 10, 32]]
 def rests : List Bytes := [[], [32, 123], [40], [32, 64, 99, 111, 109, 112, 111, 110, 101, 110, 116], [10], [123]]
 
 def nonCanonical (variant : String) (d : IsoOverload.Decl) : Bytes :=
@@ -66,27 +87,61 @@ def nonCanonical (variant : String) (d : IsoOverload.Decl) : Bytes :=
   | "tabsep" => keyword d.kind ++ [9] ++ d.ty ++ [46] ++ d.name ++ [32, 123]
   | _ => pattern d
 
+/-- the literal of an `ovlws` case as written in the source file -/
+def wsLead (variant : String) : Bytes :=
+  match variant with
+  | "ws-tab" => [9]
+  | "ws-tabs" => [9, 9]
+  | "ws-cr" => [13]
+  | "ws-crlf" => [13, 10, 9]
+  | "ws-ff" => [12]
+  | "ws-bom" => [0xEF, 0xBB, 0xBF]
+  | _ => []
+
+def charName (rest : Bytes) : String :=
+  match rest with
+  | 32 :: _ => "space" | 9 :: _ => "tab" | 10 :: _ => "lf" | 13 :: _ => "cr" | 12 :: _ => "ff" | 11 :: _ => "vt"
+  | 0xEF :: 0xBB :: 0xBF :: _ => "bom"
+  | b :: _ => "x" ++ hexEncode [b]
+  | [] => "none"
+
+/-- `none` = resolves to its own overload -/
+def failure (ws ps : List Bytes) (d : IsoOverload.Decl) (lead rest : Bytes) : Option String :=
+  let lit := cook lead ++ pattern d ++ rest
+  if firstPat ws ps lit == some (pattern d) then none
+  else if firstPat ws ps (pattern d ++ rest) == some (pattern d) then
+    -- the header itself resolves: the leading white space is what is not stripped
+    some ("leading-whitespace-not-stripped:" ++ charName (stripWith ws (lit.length + 1) (cook lead)))
+  else some "canonical-mismatch"
+
+def firstSome {α β} (xs : List α) (f : α → Option β) : Option β :=
+  xs.foldl (fun acc x => match acc with | some b => some b | none => f x) none
+
 def run (variant : Option String) (wire : String) (impl : List String) : String :=
   match Core.Wire.parseProject wire with
   | none => "bad-wire\tok"
   | some p =>
     let decls := p.decls.map fun d => declOf d.2
-    let model := "ok " ++ hexList ((overloads decls).map pattern)
+    let model := sp ["ok", hexList Gen.IsoOverloadLits.whitespace, hexList ((overloads decls).map pattern)]
     let verdict :=
       match impl with
-      | ["ok", pats] =>
-        match unhexList pats with
-        | none => "bad:unparsable-impl-answer"
-        | some ps =>
+      | ["ok", wsH, pats] =>
+        match unhexList wsH, unhexList pats with
+        | some ws, some ps =>
           if decls.any (fun d => !ps.contains (pattern d)) then "bad:missing-overload"
           else match variant with
             | none =>
-              if decls.all (fun d => leads.all fun l => rests.all fun r =>
-                  firstPat ps (canonicalLiteral d l r) == some (pattern d)) then "ok"
-              else "bad:canonical-mismatch"
+              match firstSome decls (fun d => firstSome leads fun l => firstSome rests fun r => failure ws ps d l r) with
+              | none => "ok"
+              | some f => "bad:" ++ f
             | some v =>
-              if decls.all (fun d => firstPat ps (nonCanonical v d) == some (pattern d)) then "ok"
+              if v.startsWith "ws-" then
+                match firstSome decls (fun d => firstSome rests fun r => failure ws ps d (wsLead v) r) with
+                | none => "ok"
+                | some f => "bad:" ++ f
+              else if decls.all (fun d => firstPat ws ps (nonCanonical v d) == some (pattern d)) then "ok"
               else "bad:noncanonical-header"
+        | _, _ => "bad:unparsable-impl-answer"
       | _ => "ok"       -- rejected / panic: no iso.ts to judge (the disagreement with the model is reported)
     model ++ "\t" ++ verdict
 
@@ -247,6 +302,7 @@ def handle (fs : List String) : String :=
   match req with
   | ["ovl", wire] => Ovl.run none wire impl
   | ["ovlnc", v, wire] => Ovl.run (some v) wire impl
+  | ["ovlws", v, wire] => Ovl.run (some v) wire impl
   | ["hole", kind, hex] => Holes.run kind hex impl
   | "artsp" :: _ => Arts.runParse impl
   | "artsdemop" :: _ => Arts.runParse impl
